@@ -22,15 +22,18 @@ ID = 'C03'
 HARNESS_BIN = None
 RUN_MODULE = 'Run.C03'
 REPO_BINS = ['sccache']
-THEOREMS = ['C03_hit_after_store', 'C03_hit_after_store_within_capacity', 'C03_key_ignores_unhashed', 'C03_key_ignores_output', 'C03_key_ignores_env',
+THEOREMS = ['C03_hit_after_store', 'C03_hit_after_store_within_capacity', 'C03_restore_any_mount_layout', 'C03_damaged_entry_replaced', 'C03_key_ignores_unhashed', 'C03_key_ignores_output', 'C03_key_ignores_env',
             'C03_reopen_keeps_everything', 'C03_restart_preserves']
 ASSUMPTIONS = [
     'the hash is an arbitrary function key_of of the fingerprint (record of the hashed request components); '
     '"unrelated request" = a request whose cache path differs (for a collision-free hash: whose fingerprint differs)',
     'the compilers are an oracle: what the compile step writes, whether it succeeds, how large the packed entry is; '
     'that equal sources give equal preprocessor output is not modelled (the e2e leg observes it)',
-    'nobody but sccache touches the cache directory and entry files are intact (corruption: C08/C09); I/O errors other '
-    'than "file missing" and the 60 s lookup timeout are not modelled',
+    'nobody but sccache touches the cache directory except through the modelled damage event (an entry file truncated: '
+    'it stays indexed, is unreadable, and is replaced by the next store); other corruption shapes: C08/C09; I/O errors '
+    'other than "file missing" and the 60 s lookup timeout are not modelled',
+    'mounts: rename fails across mounts (EXDEV), mounts are assigned to directories by an arbitrary function '
+    '(C03_restore_any_mount_layout); the e2e leg puts the server TMPDIR / the cache directory on another file system',
     'the repeated request\'s preprocessor / dep-info step succeeds (or is skipped by a preprocessor-cache hit): explicit '
     'hypothesis of C03_hit_after_store, it is the compiler\'s behaviour on unchanged files',
     'C03_restart_preserves / C03_reopen_keeps_everything: guard "entry files fit the capacity and none is named like a '
@@ -193,6 +196,19 @@ def gen_plan(rng, tool, pp, cap, nreq, idle_timeout=0):
                 steps.append({'op': 'delete_some', 'req': len(reqs), 'mask': rng.choice([0, 1, 2, 3])})
                 steps.append(json.loads(json.dumps(c)))
                 reqs.append(steps[-1])
+    good = [j for j, c in enumerate(reqs) if not c['bad']]
+    if good and rng.chance(1, 2):
+        # an entry file gets damaged (truncated: machine crash, full disk, bad copy), with the server running or stopped;
+        # the next identical request recompiles and stores again, every further one must be served from the cache
+        j = rng.choice(good)
+        how = rng.choice(['running', 'stopped'])
+        if how == 'stopped':
+            steps.append({'op': 'damage', 'req': j + 1, 'restart': True})
+        else:
+            steps.append({'op': 'damage', 'req': j + 1, 'restart': False})
+        for _ in range(4):
+            steps.append({'op': 'delete_some', 'req': j + 1, 'mask': rng.choice([0, 1, 2, 3])})
+            steps.append(json.loads(json.dumps(reqs[j])))
     if cap == HUGE and reqs and rng.chance(2, 3):
         # the cache directory as a tar / CI-cache restore or a coarse-timestamp file system leaves it: entry files share
         # their mtimes; then every stored request once more
@@ -206,7 +222,9 @@ def gen_plan(rng, tool, pp, cap, nreq, idle_timeout=0):
             seen.add(k)
             steps.append({'op': 'delete_some', 'req': j + 1, 'mask': rng.choice([0, 1, 2, 3])})
             steps.append(json.loads(json.dumps(c)))
-    return {'tool': tool, 'pp': pp, 'cap': cap, 'idle_timeout': idle_timeout, 'steps': steps}
+    return {'tool': tool, 'pp': pp, 'cap': cap, 'idle_timeout': idle_timeout, 'steps': steps,
+            # the server's TMPDIR (and, every other time, its cache directory) on ANOTHER file system than the build tree
+            'tmp_other_fs': rng.chance(1, 2), 'cache_other_fs': rng.chance(1, 4)}
 
 
 def gen_plans(rng, tier):
@@ -232,12 +250,21 @@ def gen_plans(rng, tier):
 
 # ---------------------------------------------------------------- running a plan on the real binary
 
+_PORTS = set()
+_PORTS_LOCK = __import__('threading').Lock()
+
+
 def free_port():
-    s = socket.socket()
-    s.bind(('127.0.0.1', 0))
-    p = s.getsockname()[1]
-    s.close()
-    return p
+    """A free port that no other history of this run has been given (two histories must never share a server)."""
+    while True:
+        s = socket.socket()
+        s.bind(('127.0.0.1', 0))
+        p = s.getsockname()[1]
+        s.close()
+        with _PORTS_LOCK:
+            if p not in _PORTS:
+                _PORTS.add(p)
+                return p
 
 
 def kill_servers(port):
@@ -276,11 +303,19 @@ class Runner:
         self.sccache = sccache
         self.ws = os.path.join(root, 'ws')
         self.cache = os.path.join(root, 'cache')
+        self.tmpdir = os.path.join(root, 'tmp')
+        other = getattr(self, 'other_root', None) or os.environ.get('C03_OTHER_ROOT')
+        if other and os.stat(other).st_dev != os.stat(root).st_dev:
+            if plan.get('tmp_other_fs'):
+                self.tmpdir = os.path.join(other, os.path.basename(root) + '-tmp')
+            if plan.get('cache_other_fs'):
+                self.cache = os.path.join(other, os.path.basename(root) + '-cache')
+            self.other_dirs = [self.tmpdir, self.cache]
         self.logf = os.path.join(root, 'wrapper.log')
         self.ver = {}
         os.makedirs(self.ws)
         os.makedirs(os.path.join(root, 'bin'))
-        os.makedirs(os.path.join(root, 'tmp'))
+        os.makedirs(self.tmpdir, exist_ok=True)
         open(os.path.join(root, 'empty.conf'), 'w').close()
         real = {'gcc': '/usr/bin/gcc', 'clang': '/usr/bin/clang',
                 'rustc': os.path.join(deps_dir, 'rustc-path')}[self.tool]
@@ -292,7 +327,7 @@ class Runner:
         self.port = free_port()
         self.env = {
             'PATH': '/usr/local/sbin:/usr/local/bin:/usr/sbin:/usr/bin:/sbin:/bin', 'HOME': root,
-            'TMPDIR': os.path.join(root, 'tmp'), 'SCCACHE_SERVER_PORT': str(self.port), 'SCCACHE_DIR': self.cache,
+            'TMPDIR': self.tmpdir, 'SCCACHE_SERVER_PORT': str(self.port), 'SCCACHE_DIR': self.cache,
             'SCCACHE_IDLE_TIMEOUT': str(plan.get('idle_timeout', 0)), 'SCCACHE_CONF': os.path.join(root, 'empty.conf'),
             'SCCACHE_DIRECT': 'true' if plan['pp'] else 'false', 'SCCACHE_CACHE_SIZE': str(plan['cap']),
             'SCCACHE_ERROR_LOG': os.path.join(root, 'server.log'), 'LC_ALL': 'C',
@@ -372,8 +407,8 @@ class Runner:
 
         def tot(x):
             return sum(x['counts'].values()) if isinstance(x, dict) else x
-        return {k: tot(d[k]) for k in ('cache_hits', 'cache_misses', 'cache_writes', 'cache_write_errors', 'compilations',
-                                       'cache_errors', 'requests_executed', 'compile_fails', 'non_cacheable_compilations',
+        return {k: tot(d.get(k, 0)) for k in ('cache_hits', 'cache_misses', 'cache_writes', 'cache_write_errors', 'compilations',
+                                       'cache_errors', 'cache_read_errors', 'requests_executed', 'compile_fails', 'non_cacheable_compilations',
                                        'requests_not_cacheable', 'requests_not_compile', 'cache_timeouts', 'forced_recaches')}
 
     def take_log(self):
@@ -582,6 +617,7 @@ class Runner:
         saved = {}                      # tag -> {role: sha}
         stored = {}                     # identity -> (tag, entry file, request, {file the compiler produced: sha})
         produced = {}                   # tag -> files written while the request was served
+        stored_all = {}                 # identity -> (first tag, entry file, request, files, latest tag): survives damage
         viol = []
         tag = 0
         try:
@@ -623,6 +659,30 @@ class Runner:
                         os.remove(os.path.join(self.ws, f))
                         events.append(['delete', f.encode()])
                         obs.append({'op': 'delete', 'entries': self.entries()})
+                    continue
+                if op == 'damage':
+                    cs = [s for s in self.plan['steps'] if s['op'] == 'compile'][st['req'] - 1]
+                    ident_d = self.identity(cs)       # the entry such a request would be served from NOW
+                    ent = [stored_all[ident_d]] if ident_d in stored_all else []
+                    f = ent[0][1] if ent else None
+                    if f is None or f not in self.entries():
+                        continue                      # never stored / already evicted: nothing to damage
+                    if st.get('restart'):
+                        rc, _, _ = self.sc(['--stop-server'])
+                        if rc != 0:
+                            kill_servers(self.port)
+                    fp = os.path.join(self.cache, f)
+                    newsize = os.path.getsize(fp) // 2
+                    with open(fp, 'r+b') as fh:
+                        fh.truncate(newsize)
+                    stored.pop(ident_d, None)         # until it is stored again, a miss is the correct answer
+                    events.append(['damage', self.abstract(ent[0][2], ent[0][0], [1, 1, 1, 0, []]), newsize])
+                    obs.append({'op': 'damage', 'entries': self.entries()})
+                    if st.get('restart'):
+                        self.sc(['--start-server'])
+                        self.server_pid = None
+                        events.append(['restart'])
+                        obs.append({'op': 'restart', 'entries': self.entries()})
                     continue
                 if op == 'flatten_mtimes':
                     # server stopped; every file below the cache directory gets one of `values` shared whole-second mtimes
@@ -685,7 +745,7 @@ class Runner:
                 if d['cache_hits'] == 1 and d['cache_misses'] == 0:
                     kind = 'hit'
                 elif d['cache_misses'] == 1 and d['cache_hits'] == 0:
-                    kind = 'miss_read_error' if d['cache_errors'] else 'miss'
+                    kind = 'miss_read_error' if (d['cache_errors'] or d['cache_read_errors']) else 'miss'
                 elif d['compile_fails']:
                     kind = 'compile_failed'
                 elif d['non_cacheable_compilations']:
@@ -695,6 +755,8 @@ class Runner:
                 else:
                     kind = 'other:' + json.dumps({k: v for k, v in d.items() if v})
                 new = [k for k in after_entries if k not in before_entries]
+                if not new and d['cache_writes'] == 1 and ident in stored_all and stored_all[ident][1] in after_entries:
+                    new = [stored_all[ident][1]]      # stored again over the (damaged) file of the same key
                 size = after_entries[new[0]] if len(new) == 1 else 0
                 if d['cache_write_errors']:
                     size = self.plan['cap'] + 1      # the store was refused: larger than the whole cache
@@ -734,6 +796,8 @@ class Runner:
                     raise Inconclusive('the server exited while request %d was being observed' % tag)
                 if d['cache_writes'] == 1 and len(new) == 1:
                     stored[ident] = (tag, new[0], st, {f: sha(os.path.join(self.ws, f)) for f in produced[tag]})
+                    first = stored_all[ident][0] if ident in stored_all else tag
+                    stored_all[ident] = (first, new[0], st, stored[ident][3], tag)
                 o['saved_ref'] = None
                 obs.append(o)
                 bad = st.get('bad', '')
@@ -820,6 +884,14 @@ def run_plans(plans, keep=False):
     base = '/dev/shm' if os.path.isdir('/dev/shm') else '/tmp'
     scratch = os.path.join(base, 'c03-%d-%d' % (os.getpid(), int(time.time())))
     os.makedirs(scratch)
+    # a directory on another file system (for the server's TMPDIR / cache directory of some histories)
+    other = None
+    for cand in ('/tmp', '/var/tmp', '/dev/shm'):
+        if os.path.isdir(cand) and os.stat(cand).st_dev != os.stat(scratch).st_dev:
+            other = os.path.join(cand, os.path.basename(scratch) + '-otherfs')
+            os.makedirs(other)
+            break
+    Runner.other_root = other
     results = []
     try:
         deps = prepare_deps(scratch)
@@ -850,6 +922,8 @@ def run_plans(plans, keep=False):
     finally:
         if not keep:
             shutil.rmtree(scratch, ignore_errors=True)
+            if other:
+                shutil.rmtree(other, ignore_errors=True)
     cases = [sx.dumps([r['plan']['cap'], r['events']]) for r in results]
     model = pipeline.run_sharded([os.path.join(pipeline.BUILD, 'modelrun-' + ID), 'hist'], cases)
     for r, c, m in zip(results, cases, model):
@@ -925,6 +999,10 @@ def extra(rep, known):
             continue
         fam = '%s.pp=%s.%s' % (plan['tool'], 'on' if plan['pp'] else 'off', 'smallcap' if plan['cap'] != HUGE else 'hugecap')
         rep.count('history.' + fam)
+        if plan.get('tmp_other_fs') and Runner.other_root:
+            rep.count('history.server_tmpdir_on_other_fs')
+        if plan.get('cache_other_fs') and Runner.other_root:
+            rep.count('history.cache_on_other_fs')
         hits_after_restart = 0
         restarts = 0
         for ob in r['obs']:
@@ -935,6 +1013,8 @@ def extra(rep, known):
                     rep.count('event.restart_by_idle_timeout')
                 if ob.get('flattened'):
                     rep.count('event.restart_with_shared_mtimes')
+            if ob['op'] == 'damage':
+                pass
             if ob['op'] == 'compile':
                 rep.evaluations += 1
                 info['requests'] += 1
